@@ -5,7 +5,9 @@
 //!   `id op=<glwe|glwe_assign|cmux|cmux_assign|cmux_assign_neg|ggsw|ggsw_assign> n=<N> rank=<r>
 //!       dsize= dnum= bg=<ggsw base2k> kg=<ggsw k> bi=<input base2k> ki=<input k> bo=<res base2k> ko=<res k>
 //!       [kf=<k of the second CMux operand>] [dnuma=<rows of the left GGSW> dnumr=<rows of the result GGSW>] m2=<zero|one|mone|mono:k|dense:seed>
-//!       m1=<rand|ext|raw> seed=<u64> [dirty=<u64>]`
+//!       m1=<rand|ext|raw> seed=<u64> [dirty=<u64>] [stale=<bits>]`
+//! `stale` > 0: the transforms of random `bits`-bit polynomials (printed as `r0=`) are left in the
+//! scratch slot that the operation's `res_dft` will occupy (exactly representable stale content).
 //! `dirty` ≠ 0: the scratch arena is filled with that 64-bit pattern (varied per word) before the
 //! call instead of zeros.
 //!
@@ -33,7 +35,7 @@ use poulpy_core::{
 use poulpy_cpu_avx::{FFT64Avx, NTT120Avx};
 use poulpy_cpu_ref::{FFT64Ref, NTT120Ref};
 use poulpy_hal::{
-    api::{ModuleNew, ScratchOwnedAlloc, ScratchOwnedBorrow, TakeSlice, VecZnxFillUniform},
+    api::{ModuleNew, ScratchOwnedAlloc, ScratchOwnedBorrow, ScratchTakeBasic, TakeSlice, VecZnxDftApply, VecZnxFillUniform},
     layouts::{DeviceBuf, Module, ScalarZnx, ScratchOwned, VecZnx, ZnxInfos, ZnxView, ZnxViewMut},
     source::Source,
 };
@@ -58,6 +60,8 @@ pub struct Case {
     pub dnuma: usize,
     pub dnumr: usize,
     pub dirty: u64,
+    /// integer polynomials whose transforms are left in the scratch slot that `res_dft` will occupy
+    pub stale: Vec<i64>,
 }
 
 pub fn kvs<'a>(t: &[&'a str]) -> HashMap<&'a str, &'a str> {
@@ -216,6 +220,18 @@ macro_rules! ep_backend {
                         *x = 0;
                     }
                 }
+                if !c.stale.is_empty() {
+                    // leave the transforms of known polynomials where the operation's first
+                    // `take_vec_znx_dft(cols, ggsw.size())` will land
+                    let cols = c.rank + 1;
+                    let size_g = c.kg.div_ceil(c.bg);
+                    let mut v: VecZnx<Vec<u8>> = VecZnx::alloc(c.n, cols, size_g);
+                    v.raw_mut().copy_from_slice(&c.stale);
+                    let (mut d, _) = scratch.borrow().take_vec_znx_dft(&module, cols, size_g);
+                    for j in 0..cols {
+                        module.vec_znx_dft_apply(1, 0, &mut d, j, &v, j);
+                    }
+                }
                 let out_infos = GLWELayout {
                     n: Degree(c.n as u32),
                     base2k: Base2K(c.bo as u32),
@@ -327,7 +343,9 @@ pub fn one_case(t: &[&str]) -> String {
         dnuma: us("dnuma"),
         dnumr: us("dnumr"),
         dirty: kv.get("dirty").map(|s| s.parse::<u64>().unwrap()).unwrap_or(0),
+        stale: Vec::new(),
     };
+    let mut c = c;
     let seed: u64 = kv.get("seed").map(|s| s.parse().unwrap()).unwrap_or(1);
     let m1class = kv.get("m1").copied().unwrap_or("rand");
     let m2 = make_m2(c.n, kv.get("m2").copied().unwrap_or("one"));
@@ -433,6 +451,19 @@ pub fn one_case(t: &[&str]) -> String {
         }
     }
 
+    let stale_bits = us("stale");
+    if stale_bits > 0 {
+        let cols = c.rank + 1;
+        let size_g = c.kg.div_ceil(c.bg);
+        let mut r = Sm(seed ^ 0x57A1E);
+        // VecZnx raw order is limb-major; we print (column, limb, coefficient)
+        let mut v: VecZnx<Vec<u8>> = VecZnx::alloc(c.n, cols, size_g);
+        for x in v.raw_mut().iter_mut() {
+            *x = ((r.next() << (64 - stale_bits)) as i64) >> (64 - stale_bits);
+        }
+        c.stale = v.raw().to_vec();
+        out.push_str(&format!(" r0={}", fmt_vec(&v)));
+    }
     out.push_str(&format!(" be0={}", run_fft64ref(&c, &ggsw, &a, f.as_ref(), am.as_ref())));
     out.push_str(&format!(" be1={}", run_ntt120ref(&c, &ggsw, &a, f.as_ref(), am.as_ref())));
     out.push_str(&format!(" be2={}", run_fft64avx(&c, &ggsw, &a, f.as_ref(), am.as_ref())));
